@@ -10,6 +10,9 @@ use std::sync::{Condvar, Mutex};
 pub enum Status {
     Runnable,
     Blocked(usize), // waiting for mailbox
+    /// holds the baton no longer because it went to sleep on a lock owned by a parked client
+    /// (a lock held across a switch point in the code under test); becomes Runnable at its next switch point
+    BlockedOnLock,
     Done,
 }
 
@@ -23,6 +26,11 @@ pub struct SchedState {
     pub deadlock: bool,
     /// voluntary in-build switch points still allowed in this run (bounds the cost of runs on large inputs)
     pub in_build_budget: u64,
+    /// bumped whenever the baton holder reaches the scheduler: the stall detector's heartbeat
+    pub progress: u64,
+    /// hand-overs forced because the baton holder blocked on a lock owned by a parked client
+    pub lock_handovers: u64,
+    tids: Vec<i32>,
     mode: Mode,
     mailbox_full: Vec<bool>,
     all_done: bool,
@@ -82,6 +90,9 @@ impl Sched {
                 steps: 0,
                 deadlock: false,
                 in_build_budget: 3000,
+                progress: 0,
+                lock_handovers: 0,
+                tids: vec![0; n],
                 mode,
                 mailbox_full: vec![false; mailboxes],
                 all_done: n == 0,
@@ -168,7 +179,27 @@ impl Sched {
         Some(chosen)
     }
 
+    /// Is the OS thread asleep (state S in /proc)? A baton holder that computes is R; one that sleeps for a long
+    /// stretch can only be waiting for a lock owned by a parked client.
+    fn thread_sleeps(tid: i32) -> bool {
+        if tid == 0 {
+            return false;
+        }
+        match std::fs::read_to_string(format!("/proc/self/task/{}/stat", tid)) {
+            Ok(s) => match s.rfind(')') {
+                Some(i) => s[i + 1..].trim_start().starts_with('S'),
+                None => false,
+            },
+            Err(_) => false,
+        }
+    }
+
     /// Main thread: hand the baton to the first client and wait until every client is done (or deadlock).
+    /// While waiting it watches for a stalled baton holder: if the holder has not reached the scheduler for
+    /// a while AND its OS thread is asleep, it is blocked on a lock that a parked client holds (the code under
+    /// test keeps a lock across a switch point). The baton is then handed to another runnable client so that
+    /// the lock can be released; the sleeper re-joins at its next switch point. This never triggers on code
+    /// without such locks, so determinism of ordinary runs is untouched.
     pub fn run_to_end(&self) {
         let mut st = self.state.lock().unwrap();
         if st.status.is_empty() {
@@ -179,14 +210,78 @@ impl Sched {
         if let Some(f) = first {
             self.cvs[f].notify_one();
         }
+        let mut last_progress = st.progress;
+        let mut stalls = 0u32;
         while !st.all_done && !st.deadlock {
-            st = self.main_cv.wait(st).unwrap();
+            let (g, timeout) = self.main_cv.wait_timeout(st, std::time::Duration::from_millis(15)).unwrap();
+            st = g;
+            if !timeout.timed_out() || st.all_done || st.deadlock {
+                continue;
+            }
+            if st.progress != last_progress {
+                last_progress = st.progress;
+                stalls = 0;
+                continue;
+            }
+            stalls += 1;
+            if stalls < 4 {
+                continue;
+            }
+            if let Some(holder) = st.current {
+                if Self::thread_sleeps(st.tids[holder]) {
+                    // confirm over a few more samples: a sleeping holder stays asleep
+                    let tid = st.tids[holder];
+                    drop(st);
+                    let mut asleep = true;
+                    for _ in 0..3 {
+                        std::thread::sleep(std::time::Duration::from_millis(5));
+                        asleep &= Self::thread_sleeps(tid);
+                    }
+                    st = self.state.lock().unwrap();
+                    if asleep && st.current == Some(holder) && st.progress == last_progress && !st.all_done {
+                        st.status[holder] = Status::BlockedOnLock;
+                        st.lock_handovers += 1;
+                        match Self::choose(&mut st, Some(holder), true) {
+                            Some(n) => {
+                                st.switches += 1;
+                                st.current = Some(n);
+                                self.cvs[n].notify_one();
+                            }
+                            None => {
+                                // everybody else is done or blocked: the build never returns
+                                st.current = None;
+                                st.deadlock = true;
+                                for cv in &self.cvs {
+                                    cv.notify_one();
+                                }
+                            }
+                        }
+                    }
+                }
+            }
+            stalls = 0;
         }
+    }
+
+    /// A client that lost the baton while asleep on a lock re-joins: it becomes runnable and waits for its turn.
+    fn rejoin<'a>(&'a self, mut st: std::sync::MutexGuard<'a, SchedState>, me: usize) -> std::sync::MutexGuard<'a, SchedState> {
+        if st.status[me] == Status::BlockedOnLock {
+            st.status[me] = Status::Runnable;
+        }
+        if st.current.is_none() && !st.all_done && !st.deadlock {
+            // nobody holds the baton (everyone else finished meanwhile): take it
+            st.current = Some(me);
+        }
+        while st.current != Some(me) && !st.deadlock {
+            st = self.cvs[me].wait(st).unwrap();
+        }
+        st
     }
 
     /// Client thread: wait until the baton is mine for the first time.
     pub fn wait_first_turn(&self, me: usize) {
         let mut st = self.state.lock().unwrap();
+        st.tids[me] = unsafe { libc::syscall(libc::SYS_gettid) } as i32;
         while st.current != Some(me) && !st.deadlock {
             st = self.cvs[me].wait(st).unwrap();
         }
@@ -220,6 +315,9 @@ impl Sched {
                 st.current = None;
                 if st.status.iter().all(|s| *s == Status::Done) {
                     st.all_done = true;
+                } else if st.status.iter().any(|s| *s == Status::BlockedOnLock) {
+                    // a sleeper is still to re-join (the lock it waits for may just have been released):
+                    // it takes the baton itself when it reaches its next switch point
                 } else {
                     st.deadlock = true;
                     for cv in &self.cvs {
@@ -237,6 +335,13 @@ impl Sched {
         if st.deadlock {
             return;
         }
+        st.progress += 1;
+        if st.current != Some(me) {
+            st = self.rejoin(st, me);
+            if st.deadlock {
+                return;
+            }
+        }
         if in_build {
             if st.in_build_budget == 0 {
                 return;
@@ -250,6 +355,10 @@ impl Sched {
     /// Blocks until the mailbox is full. Returns false on deadlock.
     pub fn wait_mailbox(&self, me: usize, mailbox: usize) -> bool {
         let mut st = self.state.lock().unwrap();
+        st.progress += 1;
+        if st.current != Some(me) {
+            st = self.rejoin(st, me);
+        }
         if st.mailbox_full[mailbox] {
             return true;
         }
@@ -272,8 +381,18 @@ impl Sched {
 
     pub fn finish(&self, me: usize) {
         let mut st = self.state.lock().unwrap();
+        st.progress += 1;
+        let had_baton = st.current == Some(me);
         st.status[me] = Status::Done;
         if st.deadlock {
+            return;
+        }
+        if !had_baton {
+            // finished while someone else holds the baton (after a lock hand-over): nothing to hand over
+            if st.status.iter().all(|s| *s == Status::Done) {
+                st.all_done = true;
+                self.main_cv.notify_one();
+            }
             return;
         }
         let next = Self::choose(&mut st, Some(me), true);
@@ -287,5 +406,9 @@ impl Sched {
     pub fn summary(&self) -> (Vec<usize>, u64, u64, u64, bool) {
         let st = self.state.lock().unwrap();
         (st.decisions.clone(), st.switches, st.switches_in_build, st.steps, st.deadlock)
+    }
+
+    pub fn lock_handovers(&self) -> u64 {
+        self.state.lock().unwrap().lock_handovers
     }
 }
